@@ -138,7 +138,25 @@ func (s *serialFake) snapshot() (int, []*fake.Transport) {
 	return s.opens, append([]*fake.Transport(nil), s.ports...)
 }
 
-var c12kinds = []string{"custom", "tcp-server", "tcp-client", "tcp-client-refused", "udp-server", "udp-client", "udp-broadcast", "serial", "serial-backoff", "blocked-writer", "mixed"}
+// connTransport is a fake transport that also implements net.Conn.
+type connTransport struct {
+	*fake.Transport
+}
+
+type c12addr string
+
+func (a c12addr) Network() string { return "fake" }
+func (a c12addr) String() string  { return string(a) }
+
+func (c *connTransport) LocalAddr() net.Addr                { return c12addr("local") }
+func (c *connTransport) RemoteAddr() net.Addr               { return c12addr("remote") }
+func (c *connTransport) SetDeadline(t time.Time) error      { return nil }
+func (c *connTransport) SetReadDeadline(t time.Time) error  { return nil }
+func (c *connTransport) SetWriteDeadline(t time.Time) error { return nil }
+
+var _ net.Conn = (*connTransport)(nil)
+
+var c12kinds = []string{"custom", "tcp-server", "tcp-client", "tcp-client-refused", "udp-server", "udp-client", "udp-broadcast", "serial", "serial-backoff", "serial-blocked-readfail", "blocked-writer", "mixed"}
 
 func (e *c12env) addPeer(c net.Conn) {
 	e.mu.Lock()
@@ -156,7 +174,13 @@ func c12build(kind string, r *vh.RNG) (*c12env, error) {
 		for i := 0; i < n; i++ {
 			tr := fake.NewTransport(fmt.Sprintf("cu%d", i))
 			e.customs = append(e.customs, tr)
-			eps = append(eps, gomavlib.EndpointCustom{ReadWriteCloser: tr})
+			if i == 1 || kind == "mixed" {
+				// a custom transport that happens to be a network connection (net.Pipe end, TLS / unix connection): still the
+				// application's transport, closed by the node exactly once
+				eps = append(eps, gomavlib.EndpointCustom{ReadWriteCloser: &connTransport{Transport: tr}})
+			} else {
+				eps = append(eps, gomavlib.EndpointCustom{ReadWriteCloser: tr})
+			}
 		}
 		if kind == "blocked-writer" {
 			e.customs[0].BlockWritesFrom(2)
@@ -228,7 +252,7 @@ func c12build(kind string, r *vh.RNG) (*c12env, error) {
 		e.udpPorts = append(e.udpPorts, p)
 		eps = append(eps, gomavlib.EndpointUDPBroadcast{BroadcastAddress: fmt.Sprintf("127.255.255.255:%d", p), LocalAddress: fmt.Sprintf("127.0.0.1:%d", p)})
 	}
-	if has("serial") || kind == "serial-backoff" {
+	if has("serial") || kind == "serial-backoff" || kind == "serial-blocked-readfail" {
 		e.serials = &serialFake{errOpen: errors.New("serial open failed")}
 		sf := e.serials
 		gomavlib.VerifSetSerialOpenFunc(sf.open)
@@ -238,6 +262,16 @@ func c12build(kind string, r *vh.RNG) (*c12env, error) {
 				return // the probe open of Initialize
 			}
 			tr.Feed(uidFrame(uint64(n), 0, 4, false, nil, 0))
+			if kind == "serial-blocked-readfail" {
+				// the line does not take output (flow control): the writer sits inside Write (a serial port has no write
+				// deadline); then the read side of the same port fails. The port is closed, which releases the writer, and the
+				// endpoint re-opens - over and over
+				tr.BlockWritesFrom(1)
+				go func() {
+					time.Sleep(12 * time.Millisecond)
+					tr.FeedError(errSession)
+				}()
+			}
 			if kind == "serial-backoff" {
 				// the port dies at once and the next opens fail: the provider sits in its back-off
 				tr.FeedError(errSession)
@@ -783,7 +817,7 @@ func TestC12(t *testing.T) {
 	// one child process per group of scenario kinds: the known UDP-listener crash (DESIGN §5 F9) kills the
 	// process it happens in, so the kinds that can trigger it are isolated from the others
 	groups := [][]string{{"custom", "blocked-writer"}, {"tcp-server"}, {"tcp-client", "tcp-client-refused"}, {"udp-client", "udp-broadcast"},
-		{"serial", "serial-backoff"}, {"udp-server"}, {"mixed"}}
+		{"serial", "serial-backoff", "serial-blocked-readfail"}, {"udp-server"}, {"mixed"}}
 	kinds := c12kinds
 	byGroup := nsh == len(groups) || nsh == len(groups)+1
 	// resumption after the known crash (which kills the child): the driver passes the number of the job that was under way
